@@ -1,14 +1,19 @@
-import XjsModel.Proofs.RoundTrip4
+import XjsModel.Proofs.RtMain
 import XjsModel.Props.TableObligations
 /-
   C03 — Printed code parses back to the tree it was printed from.
 
-  Quantifier of the theorem: ALL trees of the operator core of the expression grammar — atoms (identifiers, numbers,
-  strings, back-quoted strings, booleans, null), explicit parentheses, the four prefix operators, the thirteen
-  binary operators and the two postfix operators — of any depth and in any combination, whether the tree came from
-  the parser or was assembled programmatically; parser in any mode, with the built-in tables.
+  Quantifier of the theorem: ALL expression trees without function literals and object literals — atoms
+  (identifiers, numbers, strings, back-quoted strings, booleans, null), explicit parentheses, the four prefix
+  operators, the thirteen binary operators, the two postfix operators, calls with any number of arguments, member
+  access (dot and computed), assignment and the two compound assignments, array literals — of any depth and in any
+  combination, whether the tree came from the parser or was assembled programmatically; parser in any mode
+  (smart-semicolon mode: `(` / `[` of a call / index not first on its line), with the built-in tables.
+  The one restriction on the shape (`SE.wf`): callee, object and assignment target are call-level-or-tighter
+  expressions (ECMAScript's LeftHandSideExpression) — the printer does not parenthesise those positions, so a tree
+  with e.g. a unary callee prints text that denotes another tree (the oracle's directed families cover those).
 
-  Proved here (`RT.main`, the Pratt invariant by induction on the tree):
+  Proved here (`RTE.main`, the Pratt invariant by structural recursion over the mutually inductive trees):
     the token sequence that the printer's parenthesisation rule produces for a tree (`SE.toks`: left operand in
     parentheses iff its precedence is lower, right operand iff lower or equal, prefix-operator operand iff lower than
     UNARY, postfix operand iff lower than POSTFIX) is parsed back to exactly that tree, the printer's parentheses
@@ -16,42 +21,46 @@ import XjsModel.Props.TableObligations
   Tie to the code: the printer's and the parser's precedence tables are re-extracted from /repo on every run and
   compared by `decide` (TableObligations); `parenLeft … parenPostfix` are the comparisons of ast.go.
   Decided by the correspondence run (PRINTT stream: programmatic trees, exhaustive parent/child pairs) and the
-  model-free re-parse oracle: that the BYTES the printer writes lex to `SE.toks` (no token fusion: fix ebb5d69),
-  the remaining node kinds (calls, member access, assignment, literals with children, statements), pretty mode.
+  model-free re-parse oracle: that the BYTES the printer writes lex to `SE.toks` (no token fusion: fixes ebb5d69,
+  aca1392), function and object literals, statements, pretty mode.
   Known findings there: stmt-start-object-or-function, dangling-else, printer-paren-function-indent, trim-in-literal.
 -/
 namespace Xjs.C03
-open Xjs Xjs.RT
+open Xjs Xjs.RTE
 
-/-- every operator binds tighter than the statement level, so any tree fits an expression position -/
-theorem fits_lowest (s : SE) (hw : s.wf = true) : s.fits LOWEST :=
-  fits_of_level s hw LOWEST (by have := level_ge_three s hw; unfold LOWEST; omega)
-
-/-- PRINT → PARSE: for every tree of the operator core, parsing the printer's token sequence (followed by anything
+/-- PRINT → PARSE: for every such tree, parsing the printer's token sequence (followed by anything
     that cannot continue an expression, e.g. `;`, `)`, `,`, end of input) returns exactly that tree. -/
 theorem printed_tokens_parse_back (cfg : PCfg) (hc : BaseCfg cfg) (s : SE) (hw : s.wf = true)
     (st : PS) (rest : List Token) (hr : rest ≠ []) (ht : st.toks = s.toks ++ rest) (hstop : stops cfg LOWEST rest) :
     parseExpressionI cfg [] LOWEST st = some (s.tree, nextK (s.toks.length - 1) st) :=
-  eval_of_main s (main hc s hw) LOWEST st rest hr ht (fits_lowest s hw)
-    (stops_mono hstop (by have := level_ge_three s hw; have := level_le_rbl s; unfold LOWEST; omega)) hstop
+  print_then_parse hc s hw LOWEST st rest hr ht (fits_lowest s hw) (stops_mono hstop (rbl_ge_one s hw)) hstop
 
-/-- the parentheses of `SE.toks` are exactly the printer's: the levels are the `Precedence()` values of the nodes -/
-def _root_.Xjs.RT.SE.bare : SE → Expr
-  | .atom t => atomTree t
-  | .grp e => .group lpT e.bare rpT
-  | .un t r => .unary t t.lit r.bare
-  | .bin t l r => .binary t l.bare t.lit r.bare
-  | .post t l => .postfix t l.bare t.lit
+mutual
+  /-- the parentheses of `SE.toks` are exactly the printer's: the levels are the `Precedence()` values of the nodes -/
+  def _root_.Xjs.RTE.SE.bare : SE → Expr
+    | .atom t => atomTree t
+    | .grp e => .group lpT e.bare rpT
+    | .un t r => .unary t t.lit r.bare
+    | .bin t l r => .binary t l.bare t.lit r.bare
+    | .post t l => .postfix t l.bare t.lit
+    | .call t f args => .call t f.bare args.bare
+    | .dot t o p => .member t o.bare (atomTree p) false
+    | .idx t o p => .member t o.bare p.bare true
+    | .asg t l v => .assign t l.bare v.bare
+    | .casg t l v => .compound t l.bare (compoundOp t) v.bare
+    | .arr t es => .array t es.bare rbT
+  def _root_.Xjs.RTE.SEList.bare : SEList → ExprList
+    | .nil => .nil
+    | .cons e rest => .cons e.bare rest.bare
+end
 
 theorem prec_bare (s : SE) : (SE.bare s).prec = s.level := by
   cases s with
   | atom t =>
-    show (atomTree t).prec = precAtomic
+    show (SE.bare (.atom t)).prec = precAtomic
+    simp only [SE.bare]
     unfold atomTree; split <;> rfl
-  | grp e => rfl
-  | un t r => rfl
-  | bin t l r => rfl
-  | post t l => rfl
+  | _ => simp [SE.bare, Expr.prec, SE.level]
 
 /-- the printer's four parenthesisation tests, on the bare tree, are the ones `SE.toks` uses -/
 theorem printer_tests (t : Token) (l r : SE) :
@@ -74,6 +83,17 @@ private def demo : SE :=
     (.un (tk .minus [45]) (.atom (tk .ident [99])))
 example : demo.wf = true := by decide
 example : demo.toks.map (·.type) = [.lparen, .ident, .plus, .ident, .rparen, .multiply, .minus, .ident] := by decide
+/-- `x = f(a, b)[c].d += [a]` -/
+private def demo2 : SE :=
+  .asg (tk .assign [61]) (.atom (tk .ident [120]))
+    (.casg (tk .plusAssign [43, 61])
+      (.dot (tk .dot [46]) (.idx (tk .lbracket [91])
+        (.call (tk .lparen [40]) (.atom (tk .ident [102])) (.cons (.atom (tk .ident [97])) (.cons (.atom (tk .ident [98])) .nil)))
+        (.atom (tk .ident [99]))) (tk .ident [100]))
+      (.arr (tk .lbracket [91]) (.cons (.atom (tk .ident [97])) .nil)))
+example : demo2.wf = true := by decide
+example : demo2.toks.map (·.type) = [.ident, .assign, .ident, .lparen, .ident, .comma, .ident, .rparen, .lbracket, .ident,
+    .rbracket, .dot, .ident, .plusAssign, .lbracket, .ident, .rbracket] := by decide
 
 end Xjs.C03
 
